@@ -9,9 +9,9 @@ import pC01
 PROP = "C02"
 DRIVER = "C02"
 LEAN_TARGETS = ["SmrtVerif.Props.C02", "SmrtVerif.Driver.C02"]
-TRUSTED = pC01.TRUSTED + ["the link `rows of the trivial-eigen system = incoherent boundary conditions` is proved per block row (trivial_rows); the "
-                          "bookkeeping that strings the rows of all layers into one chain per (stream, polarisation) is validated by the "
-                          "`textbook` correspondence, not proved"]
+TRUSTED = pC01.TRUSTED + ["stack_is_textbook is proved for stacks with the same number of streams in every layer (no total reflection) and "
+                          "diagonal interface matrices; with fewer streams in some layer the chain bookkeeping is validated by the `textbook` "
+                          "correspondence, not proved"]
 ASSUMPTIONS = ["in-layer cosines follow the solver's own rule sin(theta_l) = Re sqrt(eps_ref/eps_l) sin(theta_ref) (DESIGN §4 C02)",
                "loss tangent > 0: with ke = 0 the boundary system is singular (outside the statement's domain)"]
 RULE = ("random non-scattering stacks of 0..6 layers (density 120-917, thickness 1 cm-50 m, lossy ice or prescribed complex permittivity), flat / "
